@@ -1090,6 +1090,8 @@ def call_contract(self, c, args, kwargs, st, node):
     for exc in c.may_raise:
         s_r = st.copy()
         self.havoc_modifies(c, env, s_r)
+        for post in c.ensures_raise.get(exc, []):
+            s_r.assume(self.spec_truth(post, State(env, s_r.heap, s_r.pc, s_r.next_ref, s_r.ghost, s_r.labels), old=pre))
         if not self.spec:
             self.raise_buf.append(Outcome("raise", s_r, exc=exc))
     for z in conds:
